@@ -815,7 +815,135 @@ func main() {
 			doubleOffer(w, rr, i)
 		}()
 	}
+	for i := 0; i < no/8; i++ {
+		i := i
+		rr := rand.New(rand.NewSource(seed*15485863 + int64(i)))
+		wg.Add(1)
+		sem <- struct{}{}
+		go func() {
+			defer wg.Done()
+			defer func() { <-sem }()
+			defer func() {
+				if e := recover(); e != nil {
+					mu.Lock()
+					out.Errors = append(out.Errors, fmt.Sprintf("two peers %d: harness panic %v", i, e))
+					mu.Unlock()
+				}
+			}()
+			twoPeers(w, rr, i)
+		}()
+	}
 	wg.Wait()
 	w.Close()
 	tj.WriteJSON(os.Args[3], out)
+}
+
+// ---------------------------------------------------------------- two honest peers
+// The block that starts a block synchronisation comes from peer T; another connected honest peer B has the better chain
+// (another fork of the common prefix).  The node selects B as the best peer - and has to fetch the blocks from B: it ends on
+// B's chain.
+func twoPeers(w *tj.Writer, r *rand.Rand, idx int) {
+	fail := func(e error) {
+		mu.Lock()
+		out.Errors = append(out.Errors, fmt.Sprintf("two peers %d: %v", idx, e))
+		mu.Unlock()
+	}
+	cfg := cfg3(true)
+	ts := uint32(time.Now().Unix()) - uint32(cfg.Now)*node.BlockTime - node.BlockTime/2
+	nodes := []*node.Node{}
+	for i := 0; i < 3; i++ {
+		n, err := node.New(cfg3(true), nil, ts)
+		if err != nil {
+			fail(err)
+			return
+		}
+		defer n.Close()
+		nodes = append(nodes, n)
+	}
+	a, t, b := nodes[0], nodes[1], nodes[2]
+	P := 1 + r.Intn(3)
+	ft := 9 + r.Intn(4)      // the triggering peer: far ahead of the node (block sync)
+	fb := ft + 2 + r.Intn(4) // the best peer: longer still, on another fork
+	slot := 1
+	for i := 0; i < P; i++ {
+		for _, n := range nodes {
+			if _, err := n.Extend(slot, 0); err != nil {
+				fail(err)
+				return
+			}
+		}
+		slot++
+	}
+	st, sb := slot, slot
+	for i := 0; i < ft; i++ {
+		if _, err := t.Extend(st, 0); err != nil {
+			fail(err)
+			return
+		}
+		st++
+	}
+	for i := 0; i < fb; i++ {
+		// the first block of B's branch differs from T's (one transaction), the rest follows
+		ntx := 0
+		if i == 0 {
+			ntx = 1
+		}
+		if _, err := b.Extend(sb, ntx); err != nil {
+			fail(err)
+			return
+		}
+		sb++
+	}
+	if bytes.Equal(t.Tip().Header.ID, b.Tip().Header.ID) || b.Tip().Header.Height <= t.Tip().Header.Height {
+		fail(fmt.Errorf("the two peer chains do not differ as intended"))
+		return
+	}
+	if err := connect(a.Conn, t); err != nil {
+		fail(err)
+		return
+	}
+	if err := connect(a.Conn, b); err != nil {
+		fail(err)
+		return
+	}
+	time.Sleep(80 * time.Millisecond)
+	aTip := a.Tip().Header
+	offered := t.Tip()
+	scenario := map[string]interface{}{"twoPeers": true, "P": P, "forkT": ft, "forkB": fb}
+	done := make(chan error, 1)
+	go func() {
+		defer func() {
+			if e := recover(); e != nil {
+				done <- fmt.Errorf("panic: %v", e)
+			}
+		}()
+		done <- a.Ex.VerifProcess(offered, t.Conn.ID())
+	}()
+	var perr error
+	select {
+	case perr = <-done:
+	case <-time.After(60 * time.Second):
+		viol("hang:sync:two-peers", "process() of a block offered by one of two honest peers did not return within 60 s", scenario)
+		return
+	}
+	if perr != nil && strings.HasPrefix(perr.Error(), "panic:") {
+		viol("panic:sync", perr.Error(), scenario)
+		return
+	}
+	tip := a.Tip().Header
+	outcome := "elsewhere"
+	switch {
+	case bytes.Equal(tip.ID, b.Tip().Header.ID):
+		outcome = "best"
+	case bytes.Equal(tip.ID, t.Tip().Header.ID):
+		outcome = "trigger"
+	case bytes.Equal(tip.ID, aTip.ID):
+		outcome = "own"
+	}
+	mu.Lock()
+	out.Offers++
+	out.Outcomes["two-peers:"+outcome]++
+	w.Emit(map[string]interface{}{"ev": "offer2", "outcome": outcome, "tip": map[string]uint32{"h": tip.Height}, "best": map[string]uint32{"h": b.Tip().Header.Height},
+		"trigger": map[string]uint32{"h": t.Tip().Header.Height}, "scenario": scenario, "err": fmt.Sprint(perr)})
+	mu.Unlock()
 }
